@@ -586,6 +586,9 @@ func (g *Graph) classifyErrVal(ret *ssa.Return, v ssa.Value, at *ssa.BasicBlock,
 		rs := g.classifyErrVal(ret, inner, at, pred, depth+1)
 		return rs
 	}
+	if g.knownNonNilAt(v, at) {
+		return []RetPath{{ret, pred, v, RetError}}
+	}
 	if phi, ok := v.(*ssa.Phi); ok && depth < 4 {
 		var out []RetPath
 		for i, e := range phi.Edges {
@@ -639,4 +642,25 @@ func (g *Graph) knownNilAtEnd(v ssa.Value, p, to *ssa.BasicBlock) bool {
 		}
 	}
 	return g.knownNilAt(v, p)
+}
+
+// knownNonNilAt: every path from v's definition to block b takes an edge on which v != nil holds.
+func (g *Graph) knownNonNilAt(v ssa.Value, b *ssa.BasicBlock) bool {
+	if isNilConst(v) || len(b.Instrs) == 0 {
+		return false
+	}
+	_, bad := nilTestEdges(v)
+	if len(bad) == 0 {
+		return false
+	}
+	def, isInstr := v.(ssa.Instruction)
+	from := entryPos(g.Fn)
+	if isInstr && def.Block() != nil {
+		from = posOf(def)
+		if def.Block() == b {
+			return false
+		}
+	}
+	ex, _ := g.PathExists(from, IPos{b, 0}, Avoid{}.withEdges(bad...))
+	return !ex
 }
